@@ -18,8 +18,20 @@ Inductive case :=
    the same session id was admitted again *)
 | Sess (r : role) (o : outcome) (ph : phase) (np : nat)
        (impl_evs : list ev) (impl_ret : ret) (impl_live_after : nat) (impl_reuse : bool)
-(* operations on the real StreamManager over S sessions x P peers x X streams *)
-| Streams (S P X : nat) (ops : list sop) (impl : list sobs)
+(* operations on the real StreamManager over S sessions x P peers x X streams; [fails]: for each
+   stream whether its Close() returns an error (scripted in the mock stream; the model of
+   ReleaseStreams does not depend on it - Model.sm_release_f) *)
+| Streams (S P X : nat) (fails : list bool) (ops : list sop) (impl : list sobs)
+(* free-running contention: [rounds] rounds, in each of them n requests for ONE session id (the
+   same id in every round of the case) are released together by a barrier on one coordinator and
+   run without any interference of the harness; per round: which requests were refused and the
+   maximal number of simultaneously running processes.  Every request of a round has returned
+   before the next round starts. *)
+| Storm (n : nat) (rounds : list (list bool * nat))
+(* the real Libp2pCommunication over a fake host with P peers: Broadcast to one peer / CloseSession;
+   impl: per operation the stream (numbered in the order the host was asked for them) the message
+   was written to, or the streams that were closed (in the order of their peers); [fails]: streams whose Close fails *)
+| Comm (P : nat) (fails : list bool) (ops : list cop) (impl : list cobs)
 (* admission rounds repeated in a child process built with Go's race detector: number of data race
    reports (the observable counterpart of the lock-discipline theorem); ran = the race-enabled
    child could be built and run *)
@@ -69,6 +81,20 @@ Fixpoint sobss_eqb (a b : list sobs) : bool :=
   | _, _ => false
   end.
 
+Definition cobs_eqb (a b : cobs) : bool :=
+  match a, b with
+  | CWrote x, CWrote y => Nat.eqb x y
+  | CClosed xs, CClosed ys => nats_eqb xs ys
+  | _, _ => false
+  end.
+
+Fixpoint cobss_eqb (a b : list cobs) : bool :=
+  match a, b with
+  | [], [] => true
+  | x :: a', y :: b' => cobs_eqb x y && cobss_eqb a' b'
+  | _, _ => false
+  end.
+
 Definition nsids (sids : list nat) : nat := S (fold_left Nat.max sids 0).
 
 Definition admitted_count (n : nat) (sid : nat -> nat) (adm : nat -> bool) (s : nat) : nat :=
@@ -92,7 +118,17 @@ Definition agree (c : case) : bool :=
   | Sess r o ph np evs rt live reuse =>
       nats_eqb (summary np (session_trace r o ph np)) (summary np evs)
       && ret_eqb (session_ret r o ph) rt
-  | Streams nS nP nX ops impl => sobss_eqb (model_sobs nS nP nX (sm_empty, fun _ => 0) ops) impl
+  | Streams nS nP nX fails ops impl =>
+      Nat.eqb (length fails) nX && sobss_eqb (model_sobs nS nP nX (sm_empty, fun _ => 0) ops) impl
+  | Storm n rounds =>
+      let sid := fun _ : nat => 0 in
+      let sched := storm_sched n in
+      let st := exec New sid sched (init New) in
+      let m := admitted_count n sid (fun t => pc_eqb (pcs st t) PRun) 0 in
+      Nat.leb 1 n && steps_below n sched && all_decided n st
+      && forallb (fun r => Nat.eqb (length (fst r)) n
+                           && Nat.eqb (admitted_count n sid (fun t => negb (nth t (fst r) true)) 0) m) rounds
+  | Comm P fails ops impl => peers_below P ops && cobss_eqb (model_cobs P (sm_empty, 0) ops) impl
   | Race _ _ ran => ran
   end.
 
@@ -105,7 +141,11 @@ Definition judge (c : case) : bool :=
       && forallb negb pend_after
       && forallb (fun b => b) reuse
   | Sess r o ph np evs rt live reuse => cleanup_ok np evs && Nat.eqb live 0 && reuse
-  | Streams nS nP nX ops impl => streams_ok nS nP nX ops impl
+  | Streams nS nP nX fails ops impl => streams_ok nS nP nX ops impl
+  | Storm n rounds =>
+      forallb (fun r => conc_ok n (fun _ => 0) (fun t => negb (nth t (fst r) true))
+                        && Nat.leb (snd r) 1) rounds
+  | Comm P fails ops impl => comm_ok [] (fun _ => []) ops impl
   | Race _ reports _ => Nat.eqb reports 0
   end.
 
@@ -120,7 +160,9 @@ Definition tag (c : case) : N :=
                         | GlobalTimeout => 6 | Cancelled => 8 end)
          + (match r with Coord => 0 | Peer => 1 end)
          + (match ph with BeforeStart => 0 | DuringRun => 10 end))%N
-  | Streams _ _ _ _ _ => 30%N
+  | Streams _ _ _ fails _ _ => if existsb (fun b => b) fails then 32%N else 30%N
+  | Storm _ _ => 33%N
+  | Comm _ fails _ _ => if existsb (fun b => b) fails then 35%N else 34%N
   | Race _ _ _ => 31%N
   end.
 
